@@ -300,9 +300,10 @@ theorem build_elem_open (s : Nat) (c : Ctx) (n : Bytes) (as : List (Bytes × Byt
     have : c3.parentPrefixes = [] :: c2.parentPrefixes := congrArg Core.parentPrefixes hc3
     rw [this, pp2]
   have tag3 : c3.tagName = c2.tagName := congrArg Core.tagName hc3
+  have fl3 : c3.entityFloor = c.entityFloor := (congrArg Core.entityFloor hc3).trans fl2
   have hi3 : Inv s c3 := by
     refine ⟨hb3, by rw [lim3]; exact hi.lim, congrArg Core.curAttrs hc3, ?_, by rw [hns3, d2]; exact hi.ns2,
-      (congrArg Core.entityFloor hc3).trans (fl2.trans hi.floor), by rw [at3]; simp, ?_⟩
+      by rw [fl3, pp3]; exact Nat.le_succ_of_le hi.floor, by rw [at3]; simp, ?_⟩
     · have : c3.nsStartIdx = c2.doc.ns.treeOrder.size := congrArg Core.nsStartIdx hc3
       rw [this, d2]; exact hi.ns2
     · intro x hx
@@ -333,19 +334,23 @@ theorem build_elem_open (s : Nat) (c : Ctx) (n : Bytes) (as : List (Bytes × Byt
   -- end tag
   obtain ⟨c5, hs5, hc5, hk5, ha5, hns5⟩ :=
     step_close T txt lower c4 s c.parentId r2 o3 o4 n c.parentPrefixes
-      pn none ⟨o2, n⟩ rg (s, s) hi4.at1 tag4 hi4.ns1 hi4.ns2 hi4.cur hi4.floor (hB4.pp.trans pp3)
+      pn none ⟨o2, n⟩ rg (s, s) hi4.at1 tag4 hi4.ns1 hi4.ns2 hi4.cur
+      (by rw [hB4.fl, fl3]; exact hi.floor) (hB4.pp.trans pp3)
       (by rw [pid4]; exact hpn) hkp.1 rfl rfl (by rw [hkp.2, pid2])
   have hb5 := binv_tokenStep T txt lower hlower _ c4 c5 hi4.binv hs5
   have at5 : c5.afterText = [] := congrArg Core.afterText hc5
   have lim5 : c5.nodesLimit = c.nodesLimit := (congrArg Core.nodesLimit hc5).trans (hB4.lim.trans lim3)
   have tag5 : c5.tagName = c4.tagName := congrArg Core.tagName hc5
+  have fl5 : c5.entityFloor = c.entityFloor :=
+    (congrArg Core.entityFloor hc5).trans (hB4.fl.trans fl3)
+  have pp5 : c5.parentPrefixes = c.parentPrefixes := congrArg Core.parentPrefixes hc5
   have hi5 : Inv s c5 := by
     refine ⟨hb5, by rw [lim5]; exact hi.lim, (congrArg Core.curAttrs hc5).trans hi4.cur, ?_,
-      by rw [hns5]; exact hi4.ns2, (congrArg Core.entityFloor hc5).trans hi4.floor,
+      by rw [hns5]; exact hi4.ns2, by rw [fl5, pp5]; exact hi.floor,
       by rw [at5]; simp, by rw [hk5, ha5]; exact hi4.good⟩
     have : c5.nsStartIdx = c4.doc.ns.treeOrder.size := congrArg Core.nsStartIdx hc5
     rw [this]; exact hi4.ns2
-  refine ⟨c5, ?_, ⟨hi5, congrArg Core.parentId hc5, congrArg Core.parentPrefixes hc5, lim5,
+  refine ⟨c5, ?_, ⟨hi5, congrArg Core.parentId hc5, pp5, fl5, lim5,
     fun _ => by rw [tag5]; exact tag4, ?_, ?_, ?_⟩, at5⟩
   · refine feed_append_ok _ _ c c4 c5 ?_ (by rw [feed_cons_ok hs5]; rfl)
     refine feed_append_ok _ _ c c3 c4 ?_ hs4
@@ -429,9 +434,10 @@ theorem build_elem_empty (s : Nat) (c : Ctx) (n : Bytes) (as : List (Bytes × By
   have pid3 : c3.parentId = c.parentId := (congrArg Core.parentId hc3).trans pid2
   have pp3 : c3.parentPrefixes = c.parentPrefixes := (congrArg Core.parentPrefixes hc3).trans pp2
   have tag3 : c3.tagName = c2.tagName := congrArg Core.tagName hc3
+  have fl3 : c3.entityFloor = c.entityFloor := (congrArg Core.entityFloor hc3).trans fl2
   have hi3 : Inv s c3 := by
     refine ⟨hb3, by rw [lim3]; exact hi.lim, congrArg Core.curAttrs hc3, ?_, by rw [hns3, d2]; exact hi.ns2,
-      (congrArg Core.entityFloor hc3).trans (fl2.trans hi.floor), by rw [at3]; simp, ?_⟩
+      by rw [fl3, pp3]; exact hi.floor, by rw [at3]; simp, ?_⟩
     · have : c3.nsStartIdx = c2.doc.ns.treeOrder.size := congrArg Core.nsStartIdx hc3
       rw [this, d2]; exact hi.ns2
     · intro x hx
@@ -441,7 +447,7 @@ theorem build_elem_empty (s : Nat) (c : Ctx) (n : Bytes) (as : List (Bytes × By
       · simp only [List.mem_singleton] at hx
         subst hx
         exact ⟨hrg, rfl⟩
-  refine ⟨c3, ?_, ⟨hi3, pid3, pp3, lim3, fun _ => by rw [tag3, tag2]; exact hn0, ?_, d3a, ?_⟩, at3⟩
+  refine ⟨c3, ?_, ⟨hi3, pid3, pp3, fl3, lim3, fun _ => by rw [tag3, tag2]; exact hn0, ?_, d3a, ?_⟩, at3⟩
   · refine feed_append_ok _ _ c c2 c3 ?_ (by rw [feed_cons_ok hs3]; rfl)
     exact hs2
   · rw [d3n]
@@ -548,7 +554,8 @@ theorem parse_of_tokFor (T : Tables) (txt : Bytes) (opt : Opt)
   obtain ⟨c0, h0, l0, ns0, ts0, cur0, fl0, at0, pid0, pp0, attrs0, k0, sz0⟩ := initCtx_ok txt opt
   have hb0 : BInv c0 := binv_init txt opt c0 h0
   have hi0 : Inv 1 c0 := by
-    refine ⟨hb0, by rw [l0]; exact hl32, cur0, ns0, ts0, fl0, by rw [at0]; simp, ?_⟩
+    refine ⟨hb0, by rw [l0]; exact hl32, cur0, ns0, ts0, by rw [fl0]; exact Nat.zero_le _,
+      by rw [at0]; simp, ?_⟩
     intro x hx
     rw [k0] at hx
     simp only [List.mem_singleton] at hx
